@@ -154,6 +154,8 @@ where
             account.mark_touch();
             let _ = state.insert(self.beneficiary, account);
         }
+        #[cfg(feature = "verif")]
+        crate::verif::commit_state(crate::verif::CommitPath::Parallel, txid, &result, &state);
         self.state.commit(state);
         Ok(CommitOutcome::Committed(output.push(result)))
     }
